@@ -90,25 +90,27 @@ def apply_gate(state, op, idx, n):
     return RS.apply_matrix(state, gate_matrix(op), [idx[w] for w in op.wires], n)
 
 
-def measure_branch(state, op, outcome, idx, n):
-    """Unnormalised post-measurement state for `outcome` (reset -> |0>, else the measured eigenvector)."""
-    a = idx[op.wires[0]]
-    m = basis_vectors(op)[outcome]
-    red = np.tensordot(m.conj(), state, axes=([0], [a]))
-    after = np.array([1, 0], dtype=complex) if op.reset else m
-    out = np.tensordot(after, red, axes=0)
-    return np.moveaxis(out, 0, a)
+def _ensure(state, present, wires):
+    """Wires that were measured-and-reset are dropped from the tensor (they are exactly |0>); bring them back on demand."""
+    for w in wires:
+        if w not in present:
+            state = np.tensordot(state, np.array([1, 0], dtype=complex), axes=0)
+            present = present + [w]
+    return state, present
 
 
 def all_branches(ops, wire_order, init=None, prune=1e-13, skip_op=None):
-    """Yield (outcomes list in firing order, history dict, unnormalised final state tensor) for EVERY outcome branch.
+    """Yield (outcomes in firing order, history dict, leaf=(unnormalised state tensor, wires it is defined on)) for EVERY branch.
     skip_op(op) -> True drops an operation (used to remove the online byproduct corrections)."""
-    n = len(wire_order)
-    idx = {w: i for i, w in enumerate(wire_order)}
-    state0 = RS.zero_state(n) if init is None else np.asarray(init, dtype=complex).reshape((2,) * n)
-    stack = [(0, state0, {}, [])]
+    n0 = len(wire_order)
+    state0 = RS.zero_state(n0) if init is None else np.asarray(init, dtype=complex).reshape((2,) * n0)
+    if init is None:
+        state0, present0 = np.array(1.0 + 0j), []        # start with nothing allocated: every wire is |0>
+    else:
+        present0 = list(wire_order)
+    stack = [(0, state0, present0, {}, [])]
     while stack:
-        i, state, hist, outs = stack.pop()
+        i, state, present, hist, outs = stack.pop()
         done = True
         while i < len(ops):
             op = ops[i]
@@ -123,36 +125,51 @@ def all_branches(ops, wire_order, init=None, prune=1e-13, skip_op=None):
                 if is_measure(op.base):
                     target = op.base
                 else:
-                    state = apply_gate(state, op.base, idx, n)
-                    continue
+                    op = op.base
             elif is_measure(op):
                 target = op
-            else:
-                state = apply_gate(state, op, idx, n)
+            if target is None:
+                if op.name == "GlobalPhase" or len(op.wires) == 0:
+                    state = apply_gate(state, op, {}, state.ndim)
+                    continue
+                state, present = _ensure(state, present, list(op.wires))
+                idx = {w: k for k, w in enumerate(present)}
+                state = apply_gate(state, op, idx, len(present))
                 continue
             # branch on the measurement `target`
+            state, present = _ensure(state, present, list(target.wires))
+            a = present.index(target.wires[0])
+            m0, m1 = basis_vectors(target)
             for outcome in (1, 0):
                 if target.postselect is not None and outcome != target.postselect:
                     continue
-                st2 = measure_branch(state, target, outcome, idx, n)
-                if float(np.sum(np.abs(st2) ** 2)) <= prune:
+                m = m1 if outcome else m0
+                red = np.tensordot(m.conj(), state, axes=([0], [a]))
+                if float(np.sum(np.abs(red) ** 2)) <= prune:
                     continue
+                if target.reset:
+                    st2, pr2 = red, present[:a] + present[a + 1:]
+                else:
+                    st2, pr2 = np.moveaxis(np.tensordot(m, red, axes=0), 0, a), present
                 h2 = dict(hist)
                 h2[mkey(target)] = outcome
-                stack.append((i, st2, h2, outs + [outcome]))
+                stack.append((i, st2, pr2, h2, outs + [outcome]))
             done = False
             break
         if done:
-            yield outs, hist, state
+            yield outs, hist, (state, present)
 
 
-def extract(state, keep_axes, n):
-    """State on `keep_axes` given all other wires are |0>; also returns the weight found outside that slice."""
-    sl = [0] * n
-    for a in keep_axes:
-        sl[a] = slice(None)
+def extract(leaf, keep_wires):
+    """leaf = (tensor, present wires).  Returns (copy of the state on `keep_wires` given every other wire is |0>,
+    weight found outside that slice).  Wires absent from the tensor are |0> by construction (measured with reset)."""
+    state, present = leaf
+    state, present = _ensure(state, present, list(keep_wires))
+    sl = [0] * len(present)
+    for w in keep_wires:
+        sl[present.index(w)] = slice(None)
     sub = state[tuple(sl)]
     rest = float(np.sum(np.abs(state) ** 2) - np.sum(np.abs(sub) ** 2))
-    order = sorted(keep_axes)
-    perm = [order.index(a) for a in keep_axes]
-    return np.transpose(sub, perm), rest
+    kept_in_order = [w for w in present if w in keep_wires]
+    perm = [kept_in_order.index(w) for w in keep_wires]
+    return np.array(np.transpose(sub, perm)), rest
